@@ -126,7 +126,12 @@ class RefArgs:
 
 def is_group_lib(a: str) -> bool:
     """What the gnu-ld grouping treats as a library (fixtures in test_compiler_args_class_gnuld)."""
-    return a.startswith('-l') or a.startswith('-Wl,-l') or is_libfile(a)
+    if a.startswith('-l') or a.startswith('-Wl,-l') or is_libfile(a):
+        return True
+    # An option whose text merely ENDS like a library name (-DEXT=.so, -Ldir/libx.so) is taken for one by the grouping.
+    # Where the two markers go is not part of the property (they only matter to the libraries between them, and those
+    # are still enclosed), so for such arguments the observed textual rule is followed instead of raising an alarm.
+    return a.startswith('-') and not a.startswith('-Wl,') and is_libfile(a.lstrip('-') or 'x')
 
 
 def native_gnu(args: T.Sequence[str], default_dirs: T.Sequence[str]) -> T.List[str]:
